@@ -20,6 +20,20 @@ SINGLE_LIST_OPS = ("append", "insert", "setitem")
 SINGLE_DICT_OPS = ("setitem", "setdefault")
 
 
+def flags_of(s, prefix=""):
+    """{path: user-defined flag} of a snapshot (values ignored; replaced list items count by position)."""
+    out = {}
+    if isinstance(s, tuple) and s and s[0] == "cfg":
+        for key, val, flag in s[3]:
+            p = (prefix + "." if prefix else "") + str(key)
+            out[p] = flag
+            out.update(flags_of(val, p))
+    elif isinstance(s, tuple) and len(s) == 2 and isinstance(s[1], list) and str(s[0]).startswith("list"):
+        for i, x in enumerate(s[1]):
+            out.update(flags_of(x, "%s[%d]" % (prefix, i)))
+    return out
+
+
 def path_shape(path):
     return re.sub(r"\d+", "i", re.sub(r"[A-Za-z_][A-Za-z_0-9]*", "k", path))
 
@@ -42,12 +56,12 @@ class StateScenario(Scenario):
             over = {"p_default": rng.choice([0.6, 0.9]), "p_callable": rng.choice([0.3, 0.6])}
         if self.prop == "C15":
             over = {"p_name": rng.choice([0.0, 0.3, 0.6]), "p_list_schema": rng.choice([0.15, 0.3, 0.5]),
-                    "depth": rng.choice([1, 2, 2, 3])}
+                    "depth": rng.choice([1, 2, 2, 3]), "schema_validators": rng.choice([0.0, 0.3, 0.6])}
         return schema.GenCfg(rng, **over)
 
     def weights(self, rng):
         w = {"set": 6, "assign_sub": 2, "load_tree": 2, "loads": 1.5, "loads_bad": 0.5, "reset": 1.5, "lop": 3, "dop": 2,
-             "ctor": 0.7, "dyn": 0.7, "load_bad": 0.3}
+             "ctor": 0.7, "dyn": 0.7, "load_bad": 0.3, "set_from": 0.8, "render": 0.4}
         if self.prop == "C06":
             w.update({"loads_bad": 2.5, "load_bad": 1.0, "assign_sub": 3})
         if self.prop == "C12":
@@ -216,7 +230,17 @@ class StateScenario(Scenario):
                      "%s: str(error) %r does not start with %r" % (route, text[:80], want))
 
     def check_unchanged(self, st, rec, s0, cfg, route, what):
-        """C06: a rejected operation of the listed kinds leaves the configuration exactly as it was."""
+        """C06: a rejected operation of the listed kinds leaves the configuration exactly as it was.
+        C12: a rejected assignment never changes which fields count as user-defined."""
+        if self.prop == "C12" and route.startswith(("set-", "assign-")):
+            rec.check()
+            rec.relevant += 1
+            f0, f1 = flags_of(s0), flags_of(snapshot.snap(cfg, st.serials))
+            if f0 != f1:
+                changed = sorted(set(f0.items()) ^ set(f1.items()))[:3]
+                rec.fail("C12/rejected", "C12/rejected-assignment-changed-user-defined-status/%s/%s" % (route, what),
+                         "rejected %s (%s) changed the user-defined status of %r" % (route, what, changed))
+            return
         if self.prop != "C06":
             return
         rec.check()
@@ -275,11 +299,63 @@ class StateScenario(Scenario):
         if not leaves:
             return None
         t = rng.choice(leaves)
+        if t.node["kind"] == "list" and t.node.get("item") and schema.is_cfg_node(t.node["item"]) and rng.random() < 0.8:
+            return {"op": "set", "via": rng.choice(["attr", "item"]), "path": t.path, "v": self.gen_cfg_items(st, rng, t.node)}
         if schema.is_cfg_node(t.node):
             v = rng.choice(["scalar", 5, None, [1], 2.5, True]) if rng.random() < 0.7 else {}
         else:
             v = values.gen_value(rng, t.node, self._want(st, rng), st.ctx)
         return {"op": "set", "via": rng.choice(["attr", "item"]), "path": t.path, "v": enc(v)}
+
+    def gen_cfg_items(self, st, rng, node):
+        """A value for a list-of-configurations field: maps and ready-made configuration objects, possibly with
+        exactly one offending item (a rejected leaf inside a map, or an item that only whole-item validation
+        rejects: a value its schema validator refuses)."""
+        inode = schema.sub_schema_node(st.sd, node["item"])
+        n = rng.choice([0, 1, 2, 3])
+        items = []
+        for _ in range(n):
+            items.append({"$tree": enc(ops.gen_tree(rng, st.sd, inode, st.ctx, p_key=rng.choice([0.3, 0.7]))), "as_config": rng.random() < 0.4})
+        if items and rng.random() < st.h["p_invalid"]:
+            i = rng.randrange(len(items))
+            ints = [f for f in inode["fields"] if f["kind"] in ("int", "port") and not f.get("validator")]
+            if "pred" in inode.get("validators", ()) and ints and rng.random() < 0.6:
+                f = rng.choice(ints)
+                if isinstance(model.norm(f, 13, st.ctx), OK):
+                    tree = dec(items[i]["$tree"])
+                    tree[f["key"]] = 13
+                    items[i] = {"$tree": enc(tree), "as_config": rng.random() < 0.6}
+            else:
+                tree = dec(items[i]["$tree"])
+                ops.poison_tree(rng, st.sd, inode, tree, st.ctx)
+                items[i] = {"$tree": enc(tree), "as_config": False}
+        return {"$items": items}
+
+    def gen_set_from(self, st, rng, cfg, tgts, cfgpaths, owners):
+        """Assign the live typed container held by one field to another field of the same kind (possibly of
+        another configuration of the same schema)."""
+        def leafy(t):
+            n = t.node
+            if n["kind"] == "list":
+                return bool(n.get("item")) and not schema.is_cfg_node(n["item"]) and n["item"]["kind"] != "any"
+            # values that are themselves plain mutable containers (untyped lists) would be shared by a shallow
+            # copy exactly as with built-in dicts: the user wired the two configurations together, no claim
+            return (n["kind"] == "dict" and bool(n.get("kf") or n.get("vf"))
+                    and (n.get("vf") or {}).get("kind") not in ("list", "dict", "any") and (n.get("kf") or {}).get("kind") not in ("any",))
+        dst = [t for t in tgts if leafy(t)]
+        if not dst:
+            return None
+        d = rng.choice(dst)
+        src_cfg = rng.randrange(len(st.cfgs))
+        stg, _, _ = ops.targets(st.sd, st.cfgs[src_cfg])
+        src = [t for t in stg if leafy(t) and t.node["kind"] == d.node["kind"] and type(t.value).__name__ in ("ListProxy", "DictProxy")]
+        if not src:
+            return None
+        sp = rng.choice(src)
+        return {"op": "set_from", "path": d.path, "src": sp.path, "src_cfg": src_cfg}
+
+    def gen_render(self, st, rng, cfg, tgts, cfgpaths, owners):
+        return {"op": "render", "how": rng.choice(["to_tree", "to_tree_virtual", "dumps_json", "dumps_pickle", "asdict", "validate"])}
 
     def gen_assign_sub(self, st, rng, cfg, tgts, cfgpaths, owners):
         subs = [t for t in tgts if schema.is_cfg_node(t.node) and isinstance(t.value, Config) or (schema.is_cfg_node(t.node) and "[" not in t.path)]
@@ -530,7 +606,22 @@ class StateScenario(Scenario):
         if node is None or not isinstance(owner, Config):
             rec.log("set", "skip")
             return
-        v = dec(op["v"])
+        items_tree = None
+        if isinstance(op["v"], dict) and "$items" in op["v"]:
+            if not (node["kind"] == "list" and node.get("item") and schema.is_cfg_node(node["item"])):
+                rec.log("set", "skip")
+                return
+            try:
+                pairs = [self._item_value(st, node, path, dict(sp, validate=False)) for sp in op["v"]["$items"]]
+            except SeamGap:
+                raise
+            except Exception:  # noqa: BLE001 - a configuration object could not be prepared from its map
+                rec.log("set", "prep-failed")
+                return
+            v = [p[0] for p in pairs]
+            items_tree = [p[1] for p in pairs]
+        else:
+            v = dec(op["v"])
         route = "set-" + op["via"]
         s0 = snapshot.snap(cfg, st.serials)
         if op["via"] == "attr":
@@ -539,8 +630,19 @@ class StateScenario(Scenario):
             _, err = self._call(lambda: owner.__setitem__(key, v))
         else:
             _, err = self._call(lambda: cfg.__setitem__(path, v))
-        rec.log("set", path, node["kind"], canon(v), type(err).__name__ if err else "ok")
+        rec.log("set", path, node["kind"], canon(v) if items_tree is None else canon(items_tree), type(err).__name__ if err else "ok")
         rec.kind("ok" if err is None else "rej")
+        if items_tree is not None:
+            rec.probe("set-config-list:" + ("accepted" if err is None else "rejected"))
+            if err is None:
+                self.check_frame(st, rec, s0, cfg, path, route, "config-list")
+                self.check_defined(st, rec, owner, key, True, route, "config-list")
+            else:
+                self.check_unchanged(st, rec, s0, cfg, route, "config-list")
+                osnode = self.schema_node_at(st, cfg, opath)
+                if osnode is not None:
+                    self.after_tree_rejection(st, rec, err, osnode, {key: items_tree}, opath + "." if opath else "", route)
+            return
         if schema.is_cfg_node(node):
             if err is None:
                 rec.probe("set-cfg-accepted")
@@ -549,7 +651,7 @@ class StateScenario(Scenario):
             else:
                 self.check_unchanged(st, rec, s0, cfg, route, "subconfig")
                 if isinstance(v, dict):
-                    self.after_tree_rejection(st, rec, err, schema.sub_schema_node(st.sd, node), v, path + ".", route)
+                    self.after_tree_rejection(st, rec, err, schema.sub_schema_node(st.sd, node), v, path + ".", route, fresh_top=True)
                 else:
                     self.check_rejection(st, rec, err, path, node, route)
             return
@@ -609,10 +711,61 @@ class StateScenario(Scenario):
             return path, OK
         return path, r
 
+    def do_set_from(self, st, cfg, c, op, rec):
+        path = op["path"]
+        node = self.node_for(st, cfg, path)
+        opath, key = ops.split_last(path)
+        try:
+            owner = ops.resolve(cfg, opath)
+            value = ops.resolve(st.cfgs[op.get("src_cfg", 0) % len(st.cfgs)], op["src"])
+        except Exception:  # noqa: BLE001
+            rec.log("set_from", "skip")
+            return
+        if node is None or not isinstance(owner, Config) or type(value).__name__ not in ("ListProxy", "DictProxy"):
+            rec.log("set_from", "skip")
+            return
+        s0 = snapshot.snap(cfg, st.serials)
+        _, err = self._call(lambda: setattr(owner, key, value))
+        rec.log("set_from", path, op["src"], type(err).__name__ if err else "ok")
+        rec.kind("ok" if err is None else "rej")
+        rec.probe("container-assigned-from-%s-field" % ("same" if op["src"] == path else "other"))
+        if err is None:
+            self.check_frame(st, rec, s0, cfg, path, "set-from-field", node["kind"])
+            self.check_defined(st, rec, owner, key, True, "set-from-field", node["kind"])
+        else:
+            self.check_unchanged(st, rec, s0, cfg, "set-from-field", node["kind"])
+
+    def do_render(self, st, cfg, c, op, rec):
+        """Read-only renderings: they must not change any configuration (C13: nor the schema)."""
+        how = op["how"]
+        s0 = snapshot.snap(cfg, st.serials)
+        from cincoconfig.support import asdict
+        if how == "to_tree":
+            _, err = self._call(lambda: cfg.to_tree())
+        elif how == "to_tree_virtual":
+            _, err = self._call(lambda: cfg.to_tree(virtual=True, sensitive_mask="*"))
+        elif how.startswith("dumps_"):
+            _, err = self._call(lambda: cfg.dumps(how[6:]))
+        elif how == "asdict":
+            _, err = self._call(lambda: asdict(cfg, virtual=True))
+        else:
+            _, err = self._call(lambda: cfg.validate(collect_errors=True))
+        rec.log("render", how, type(err).__name__ if err else "ok")
+        if self.prop in ("C01", "C12", "C13"):
+            rec.check()
+            if snapshot.snap(cfg, st.serials) != s0:
+                d = snapshot.diff(s0, snapshot.snap(cfg, st.serials))
+                rec.fail("%s/frame" % self.prop, "%s/read-only-operation-changed-configuration/%s" % (self.prop, how),
+                         "%s changed the configuration at %s" % (how, d[0]))
+
     # ---- trees
-    def judge_tree(self, st, snode, tree, prefix=""):
-        """-> (rejected slot paths, has_unspec) by the model, for a tree aimed at schema node snode."""
+    def judge_tree(self, st, snode, tree, prefix="", fresh_top=False):
+        """-> (rejected slot paths, has_unspec) by the model, for a tree aimed at schema node snode.
+        fresh_top: the tree creates a new configuration (map assigned to a sub-configuration, constructor
+        keyword), so that configuration's schema validator judges it as well."""
         rej, unspec = [], False
+        if fresh_top and isinstance(tree, dict) and self.pred_hits(st, snode, tree):
+            rej.append((prefix.rstrip("."), None))
         for p, node, cont, key in ops.tree_leaf_slots(st.sd, snode, tree, prefix):
             v = cont[key]
             if schema.is_cfg_node(node):
@@ -637,12 +790,56 @@ class StateScenario(Scenario):
                 rej.append((where, node))
             elif verdict == UNSPEC:
                 unspec = True
+        rej += self.pred_rejections(st, snode, tree, prefix)
         # keys the schema does not declare
         if isinstance(tree, dict):
             declared = {f["key"] for f in snode["fields"]}
             if any(k not in declared for k in tree) and not snode.get("dynamic"):
                 unspec = True
         return rej, unspec
+
+    def pred_rejections(self, st, snode, tree, prefix, top=True):
+        """Configurations in the tree whose schema validator ('pred': no integer field may be 13) refuses the
+        loaded data.  The top-level map is loaded into an existing configuration, whose other fields are not in
+        the tree: only newly created configurations (nested maps, list items) are judged."""
+        out = []
+        if not isinstance(tree, dict):
+            return out
+        for f in snode["fields"]:
+            k = f["key"]
+            if k not in tree:
+                continue
+            v = tree[k]
+            p = prefix + k
+            if schema.is_cfg_node(f) and isinstance(v, dict):
+                sn = schema.sub_schema_node(st.sd, f)
+                if self.pred_hits(st, sn, v):
+                    out.append((p, None))
+                out += self.pred_rejections(st, sn, v, p + ".", False)
+            elif f["kind"] == "list" and f.get("item") and schema.is_cfg_node(f["item"]) and isinstance(v, list):
+                sn = schema.sub_schema_node(st.sd, f["item"])
+                for i, it in enumerate(v):
+                    if isinstance(it, dict):
+                        if self.pred_hits(st, sn, it):
+                            out.append(("%s[%d]" % (p, i), None))
+                        out += self.pred_rejections(st, sn, it, "%s[%d]." % (p, i), False)
+        return out
+
+    def pred_hits(self, st, snode, tree):
+        if "pred" not in snode.get("validators", ()):
+            return False
+        for f in snode["fields"]:
+            if f["key"] in tree and not schema.is_cfg_node(f) and f["kind"] in ("int", "port", "float", "any", "bool"):
+                r = ops.expect_loaded(f, tree[f["key"]], st.ctx)
+                if isinstance(r, OK) and isinstance(r.v, int) and not isinstance(r.v, bool) and r.v == 13:
+                    return True
+            elif f["key"] not in tree and not schema.is_cfg_node(f):
+                d = f.get("o", {}).get("default")
+                if isinstance(d, dict) and "$call" in d:
+                    d = d["$call"]
+                if isinstance(d, int) and not isinstance(d, bool) and d == 13:
+                    return True
+        return False
 
     def check_loaded_values(self, st, rec, cfgobj, snode, tree, prefix, route, fresh):
         """After an accepted load of `tree` into cfgobj: present keys hold the loaded (normalised)
@@ -695,8 +892,8 @@ class StateScenario(Scenario):
                     rec.fail("C12/fresh", "C12/default-not-exposed/%s/%s" % (route, f["kind"]),
                              "%s: %s not in the loaded map exposes %r, default is %r" % (route, p, canon(value), exp))
 
-    def after_tree_rejection(self, st, rec, err, snode, tree, prefix, route):
-        rej, unspec = self.judge_tree(st, snode, tree, prefix)
+    def after_tree_rejection(self, st, rec, err, snode, tree, prefix, route, fresh_top=False):
+        rej, unspec = self.judge_tree(st, snode, tree, prefix, fresh_top=fresh_top)
         faulted = st.B.fault is not None and st.B.vcount >= st.B.fault.get("nth", 99)
         if len(rej) == 1 and not unspec and not faulted:
             self.check_rejection(st, rec, err, rej[0][0], rej[0][1], route)
@@ -755,7 +952,7 @@ class StateScenario(Scenario):
         else:
             rec.probe("assign-map-rejected")
             self.check_unchanged(st, rec, s0, cfg, route, "map")
-            self.after_tree_rejection(st, rec, err, snode, tree, path + ".", route)
+            self.after_tree_rejection(st, rec, err, snode, tree, path + ".", route, fresh_top=True)
 
     def make_fresh(self, st, node, path):
         if node["kind"] == "configtype":
@@ -937,7 +1134,7 @@ class StateScenario(Scenario):
                     if not isinstance(v, dict):
                         rej.append((f["key"], f))
                     else:
-                        r2, u2 = self.judge_tree(st, schema.sub_schema_node(st.sd, f), v, f["key"] + ".")
+                        r2, u2 = self.judge_tree(st, schema.sub_schema_node(st.sd, f), v, f["key"] + ".", fresh_top=True)
                         rej += r2
                         unspec = unspec or u2
                 elif not ops.loadable(f):
@@ -1024,7 +1221,7 @@ class StateScenario(Scenario):
         if spec.get("as_config"):
             item = node["item"]
             fresh = st.B.types[item["type"]]() if item["kind"] == "configtype" else st.B.shared[item["ref"]]()
-            fresh.load_tree(tree)
+            fresh.load_tree(tree, validate=spec.get("validate", True))
             return fresh, tree
         return tree, tree
 
